@@ -26,13 +26,14 @@ struct Case
     unsigned nthreads;
     int pre;     // call made on the same object BEFORE the measured one (non-initial object state): 0 none, 1/2 extendPol with another N, 3 NTT of the full domain
     int team0;   // OpenMP default team size in force when the case starts (0: the process default)
+    int mis;     // 1: source, destination and scratch buffer start one element later relative to their natural alignment (addresses 8 mod 16 where the default is 0 mod 16 and vice versa); one sentinel element of slack at the end instead of the exact end
     int outer;   // > 0: the call is made by each of `outer` threads of a parallel region of the CALLER, every thread on its own object and buffers
     int plant;   // 0: impulse basis + dense input; 1/2: boundary values planted at a stage of the pipeline (see run_case_planted)
 };
 static std::string casestr(const Case &c)
 {
     return fmt("mode=%s D=%llu n=%llu next=%llu ncols=%llu nphase=%s nblock=%s buf=%d dst=%d nthreads=%u pre=%d", mname[c.mode], (unsigned long long)c.D, (unsigned long long)c.n,
-               (unsigned long long)c.next, (unsigned long long)c.ncols, hex(c.nphase).c_str(), hex(c.nblock).c_str(), c.buf, c.dst, c.nthreads, c.pre) + (c.team0 ? fmt(" team0=%d", c.team0) : std::string()) + (c.outer ? fmt(" outer=%d", c.outer) : std::string()) + (c.plant ? fmt(" plant=%d", c.plant) : std::string());
+               (unsigned long long)c.next, (unsigned long long)c.ncols, hex(c.nphase).c_str(), hex(c.nblock).c_str(), c.buf, c.dst, c.nthreads, c.pre) + (c.team0 ? fmt(" team0=%d", c.team0) : std::string()) + (c.outer ? fmt(" outer=%d", c.outer) : std::string()) + (c.mis ? " mis=1" : "") + (c.plant ? fmt(" plant=%d", c.plant) : std::string());
 }
 static int g_team0; // OpenMP default team size at start-up: restored before every case, so that a case never depends on the cases the same worker ran before
 static unsigned lg(u64 x) { return nttor::lg(x); }
@@ -292,7 +293,9 @@ static void run_case(const Case &c)
     size_t nsrc = n * ncols, ndst = nout * ncols;
     // in-place extension: one buffer of nout rows holds the input in its first n rows
     size_t srclen = (c.mode == M_EXT && c.dst == 0) ? ndst : nsrc;
-    GuardArena<E> src(srclen, true), dst(ndst + 1, true), buf(ndst, true);
+    const size_t ms = c.mis ? 1 : 0;
+    const u64 SLACK = 0xA5A5A5A5A5A5A5A5ULL;
+    GuardArena<E> src(srclen + ms, true), dst(ndst + 1 + ms, true), buf(ndst + ms, true);
     // complete impulse basis up to n = 64; above that a boundary subset of the basis plus the dense input
     std::vector<u64> ts;
     if (n == 0 || ncols == 0) ts.push_back(0);
@@ -316,6 +319,7 @@ static void run_case(const Case &c)
         for (size_t i = 0; i < srclen; i++) src.p[i].fe = (i < nsrc) ? in[i] : (SENT ^ i); // rows >= n of an in-place extension are garbage
         for (size_t i = 0; i < ndst + 1; i++) dst.p[i].fe = SENT;
         for (size_t i = 0; i < ndst; i++) buf.p[i].fe = SENT + 1;
+        if (ms) { src.p[srclen].fe = SLACK; dst.p[ndst + 1].fe = SLACK; buf.p[ndst].fe = SLACK; }
         E *d = (c.dst == 0) ? src.p : (c.dst == 1 ? dst.p + 1 : nullptr);
         E *b = c.buf ? buf.p : nullptr;
         if (c.mode == M_NTT) ntt.NTT(d, src.p, n, ncols, b, c.nphase, c.nblock);
@@ -324,6 +328,7 @@ static void run_case(const Case &c)
         rep().stat("transitions");
         rep().stat("evaluations");
         const E *res = (c.dst == 1) ? dst.p + 1 : src.p;
+        if (ms && (src.p[srclen].fe != SLACK || dst.p[ndst + 1].fe != SLACK || buf.p[ndst].fe != SLACK)) { rep().viol(prop + ".write-outside." + mname[c.mode] + ".misaligned", casestr(c), "the element after a buffer was overwritten"); return; }
         if (n == 0 || ncols == 0)
         {
             for (size_t i = 0; i < ndst + 1; i++) if (dst.p[i].fe != SENT) { rep().viol(prop + ".noop-writes." + mname[c.mode], casestr(c), "destination touched although size or column count is zero"); return; }
@@ -365,7 +370,7 @@ static bool parse(const std::string &s, Case &c)
     for (int i = 0; i < NMODE; i++) if (mo == mname[i]) c.mode = i;
     if (c.mode < 0) return false;
     c.D = cu(m, "D"); c.n = cu(m, "n"); c.next = cu(m, "next"); c.ncols = cu(m, "ncols");
-    c.nphase = cu(m, "nphase"); c.nblock = cu(m, "nblock"); c.buf = (int)cu(m, "buf"); c.dst = (int)cu(m, "dst"); c.nthreads = (unsigned)cu(m, "nthreads"); c.pre = (int)cu(m, "pre"); c.plant = (int)cu(m, "plant", 0); c.team0 = (int)cu(m, "team0", 0); c.outer = (int)cu(m, "outer", 0);
+    c.nphase = cu(m, "nphase"); c.nblock = cu(m, "nblock"); c.buf = (int)cu(m, "buf"); c.dst = (int)cu(m, "dst"); c.nthreads = (unsigned)cu(m, "nthreads"); c.pre = (int)cu(m, "pre"); c.plant = (int)cu(m, "plant", 0); c.team0 = (int)cu(m, "team0", 0); c.outer = (int)cu(m, "outer", 0); c.mis = (int)cu(m, "mis", 0);
     return true;
 }
 static void report_crash(const Case &c, const ChildResult &r)
@@ -579,6 +584,14 @@ int main(int argc, char **argv)
         std::set<std::string> seen;
         for (auto &c : cases)
         {
+            // the other alignment of every buffer (an Element needs 8-byte alignment only): every configuration of the small domains
+            if (c.n >= 2 && c.ncols > 0 && c.D <= 16 && (c.D & (c.D - 1)) == 0 && c.nthreads == nth[0] && !c.pre && !c.plant && !c.outer && !c.team0 && c.n <= 1024 && c.next <= 1024)
+            {
+                Case d = c;
+                d.mis = 1;
+                std::string k = casestr(d);
+                if (seen.insert(k).second) extra.push_back(d);
+            }
             if (c.n == 0 || c.ncols == 0 || c.buf != 0 || c.dst != 1 || c.nthreads != nth[0]) continue;
             if (!(c.nphase == 3 || c.nphase == 2) || c.nblock != 1) continue;
             for (int pre = 1; pre <= 3; pre++)
@@ -629,7 +642,7 @@ int main(int argc, char **argv)
                             for (int buf = 0; buf < 2; buf++)
                                 for (int outer : {2, 3})
                                 {
-                                    Case c = {mode, n, mode == M_EXT ? n / 2 : n, mode == M_EXT ? n : 0, ncols, ph, bl, buf, dst, (unsigned)(outer == 2 ? 3 : 1), 0, 0, outer, 0};
+                                    Case c = {mode, n, mode == M_EXT ? n / 2 : n, mode == M_EXT ? n : 0, ncols, ph, bl, buf, dst, (unsigned)(outer == 2 ? 3 : 1), 0, 0, 0, outer, 0};
                                     cases.push_back(c);
                                     added++;
                                 }
@@ -650,7 +663,7 @@ int main(int argc, char **argv)
                                 if (mode != M_EXT && e != 2) continue;
                                 if (!th && n == 16 && (ph != 3 || bl != 1)) continue;
                                 unsigned t = (ph == 3 && bl == 1) ? 3 : 1;
-                                Case c = {mode, mode == M_EXT ? n : n, n, mode == M_EXT ? n * e : 0, ncols, ph, bl, 0, 1, t, 0, 0, 0, plant};
+                                Case c = {mode, mode == M_EXT ? n : n, n, mode == M_EXT ? n * e : 0, ncols, ph, bl, 0, 1, t, 0, 0, 0, 0, plant};
                                 cases.push_back(c);
                                 added++;
                             }
